@@ -49,6 +49,8 @@ type C16Case struct {
 	NoWait  bool   `json:"nowait,omitempty"`
 	Buf     []byte `json:"buf,omitempty"`
 	Garbage []byte `json:"garbage,omitempty"`
+	// kind "get": replies to further GetStatus calls on the same client while the earlier results are still held
+	More [][]byte `json:"more,omitempty"`
 	// kind "seq": a second setter on the same client after a first one in the other wait mode whose
 	// acknowledgement carries PrevErrno and has not been waited for
 	Prev      string `json:"prev,omitempty"`
@@ -56,7 +58,7 @@ type C16Case struct {
 }
 
 func (c C16Case) Describe() string {
-	return fmt.Sprintf("kind=%s setter=%s u32=%d bool=%v nowait=%v prev=%s prev-errno=%d buf(%d)=%x garbage=%x", c.Kind, c.Setter, c.U32, c.Bool, c.NoWait, c.Prev, c.PrevErrno, len(c.Buf), c.Buf, c.Garbage)
+	return fmt.Sprintf("kind=%s setter=%s u32=%d bool=%v nowait=%v prev=%s prev-errno=%d buf(%d)=%x garbage=%x more=%x", c.Kind, c.Setter, c.U32, c.Bool, c.NoWait, c.Prev, c.PrevErrno, len(c.Buf), c.Buf, c.Garbage, c.More)
 }
 
 var setters = []string{"SetPID", "SetRateLimit", "SetBacklogLimit", "SetEnabled", "SetImmutable", "SetFailure", "SetBacklogWaitTime"}
@@ -78,6 +80,7 @@ func genC16(t *rapid.T) C16Case {
 		c.NoWait = rapid.Bool().Draw(t, "nowait")
 	case "get":
 		c.Buf = rapid.SliceOfN(rapid.Byte(), 32, 60).Draw(t, "status")
+		c.More = rapid.SliceOfN(rapid.SliceOfN(rapid.Byte(), 32, 60), 0, 3).Draw(t, "more")
 	default:
 		n := rapid.OneOf(rapid.IntRange(0, 80), rapid.SampledFrom([]int{0, 1, 31, 32, 33, 35, 36, 40, 43, 44, 45, 48, 64})).Draw(t, "len")
 		c.Buf = rapid.SliceOfN(rapid.Byte(), n, n).Draw(t, "buf")
@@ -233,22 +236,34 @@ func propC16(c C16Case) error {
 		hC16.Class("set-" + c.Setter)
 	case "get":
 		k := simk.New(41)
+		replies := append([][]byte{c.Buf}, c.More...)
+		call := 0
 		k.OnSend = func(k *simk.K, s simk.Sent) {
 			k.Push(simk.Ack(s.Seq, 0, s.Type))
-			k.Push(simk.Msg(uint16(uapi.A("AUDIT_GET")), 0, s.Seq, 0, c.Buf))
+			k.Push(simk.Msg(uint16(uapi.A("AUDIT_GET")), 0, s.Seq, 0, replies[call]))
 		}
 		cl := &libaudit.AuditClient{Netlink: k}
-		st, err := cl.GetStatus()
-		if err != nil || st == nil {
-			return fmt.Errorf("GetStatus with a %d-byte reply: %v", len(c.Buf), err)
-		}
-		if len(k.Sent) != 1 || uint32(k.Sent[0].Type) != uapi.A("AUDIT_GET") || k.Sent[0].Flags != syscall.NLM_F_REQUEST|syscall.NLM_F_ACK || len(k.Sent[0].Data) != 0 {
-			return fmt.Errorf("GetStatus sent %+v, want one AUDIT_GET request with REQUEST|ACK and no payload", k.Sent)
-		}
-		if err := checkDecoded(st, c.Buf, fmt.Sprintf("GetStatus with a %d-byte reply %x", len(c.Buf), c.Buf)); err != nil {
-			return err
+		var held []*libaudit.AuditStatus
+		for call = range replies {
+			st, err := cl.GetStatus()
+			if err != nil || st == nil {
+				return fmt.Errorf("GetStatus call %d with a %d-byte reply: %v", call+1, len(replies[call]), err)
+			}
+			if len(k.Sent) != call+1 || uint32(k.Sent[call].Type) != uapi.A("AUDIT_GET") || k.Sent[call].Flags != syscall.NLM_F_REQUEST|syscall.NLM_F_ACK || len(k.Sent[call].Data) != 0 {
+				return fmt.Errorf("GetStatus call %d sent %+v, want one AUDIT_GET request with REQUEST|ACK and no payload", call+1, k.Sent)
+			}
+			held = append(held, st)
+			// every result obtained so far still shows what the kernel answered to its own request
+			for i, h := range held {
+				if err := checkDecoded(h, replies[i], fmt.Sprintf("result of GetStatus call %d (reply of %d bytes %x), looked at after call %d", i+1, len(replies[i]), replies[i], call+1)); err != nil {
+					return err
+				}
+			}
 		}
 		hC16.Class("get")
+		if len(replies) > 1 {
+			hC16.Class("get-repeated-on-one-client")
+		}
 		if len(c.Buf) != sizeofStatus {
 			hC16.NonTrivial(hx.FP(c.Describe()), c.Describe)
 		}
